@@ -250,6 +250,10 @@ def _after_update(env, cfg):
         out_delta = guarded(env, 'normalize_delta', ex.get_normalized_importance_values, mode='delta')
         _check_normalised(env, imp, out_sum, 'sum')
         _check_normalised(env, imp, out_delta, 'delta')
+        # the derived views are reads: importance_values still reports the raw running statistics afterwards
+        imp_again = ex.importance_values
+        env.claim(f"normalised_views_leave_importance_values_{tag}", set(imp_again.keys()) == set(imp.keys())
+                  and And(*[eq(imp_again[f], imp[f]) for f in imp if f in imp_again]))
         cb = guarded(env, 'confidence', ex.get_confidence_bound, delta)
         alpha, t = ex._smoothing_alpha, ex.seen_samples
         for f in names:
